@@ -4,7 +4,7 @@
 //   c1 <fn> <var> <pt> <opt> <w> <h> <ks> <c> <S> | taps(ks) | plane_0 | plane_1 ...
 //        fn  : cr (correlate_rows) cc (correlate_cols) vr (convolve_rows) vc (convolve_cols)
 //        var : dyn | fix  (fix: kernel_1d_fixed<ks>, ks odd <= 9)
-//        pt  : pixel type set (see PT below);  opt : boundary_option as integer 0..4
+//        pt  : pixel type set (see PT below; g8f / rgb8f / g16f: integral source and destination, float32 accumulator and taps);  opt : boundary_option as integer 0..4
 //        planes: source samples INCLUDING P = ks-1 extra samples on both sides along the correlation axis
 //                (rows: h rows of w+2P; cols: h+2P rows of w); the source view is the inner w x h window
 //        destination is pre-filled with  S + 10*(y*w+x) + channel
@@ -167,6 +167,12 @@ int main() {
 #endif
 #ifdef PT_D
             if (pt == "rgb8p") return c1<gil::rgb8_planar_image_t, gil::rgb32s_pixel_t, rgb32s_img, int>(op);
+#endif
+#ifdef PT_G
+            // float accumulator, fractional float taps, INTEGRAL source and destination: the stored value is the float sum truncated
+            if (pt == "g8f") return c1<gil::gray8_image_t, gil::gray32f_pixel_t, gil::gray8_image_t, float>(op);
+            if (pt == "rgb8f") return c1<gil::rgb8_image_t, gil::rgb32f_pixel_t, gil::rgb8_image_t, float>(op);
+            if (pt == "g16f") return c1<gil::gray16_image_t, gil::gray32f_pixel_t, gil::gray16_image_t, float>(op);
 #endif
 #ifdef PT_E
             if (pt == "g32f") return c1<g32f_img, gil::gray32f_pixel_t, g32f_img, float>(op);
